@@ -6,10 +6,17 @@
     hdr <rsSa rsLun netfn rqSa rqLun seq cmd>        -> ok <hex> | <error tag>
     enc <7 fields> <hex data>               -> ok <hex> | <error tag>
     flt <7 fields> <flags> <hex frame>      -> ok <0|1> | <error tag>
+    rsphdr <7 fields>                       -> ok <hex> | <error tag>     IpmbHeaderRsp.encode() of an object with these attributes
+    rspenc <7 fields> <hex body>            -> ok <hex> | <error tag>     encode_ipmb_msg(<that IpmbHeaderRsp>, body)
+    rspframe <s|a|i> <7 REQUEST fields> <hex body> -> ok <hex> | <error tag>
+         from_req_header + encode_ipmb_msg; s = the assignments of the working tree (Gen.IpmbFilter.rspFromReq),
+         a = as shipped, i = intended (Ipmb.fromReqTable)
   Spec (PyIpmi.Spec.Wire, the oracle):
     parse <hex frame>                       -> some <7 fields> <hex data> | none
     isreply <7 fields> <flags> <hex frame>  -> 0 | 1
     mkreply <7 fields> <hex body>           -> <hex frame>
+    mkreq <7 fields> <hex data>             -> <hex frame>
+    parsersp <hex frame>                    -> some <7 fields> <hex body> | none   (netfn = the one on the wire)
     sums <hex frame>                        -> <sum8 take 3> <sum8 drop 3>
 
     wrap <hex innermost> <layer>*           -> <hex frame>   (Spec.Bridges.wrapLayer, outermost first;
@@ -85,6 +92,33 @@ def handleC03 (line : String) : String :=
       | .ok r => if r then "ok 1" else "ok 0"
       | e => e.tag
     | _, _, _ => "bad-op"
+  | "rsphdr" :: ts =>
+    match parseHdr ts with
+    | some h => showBytes (encodeRspHeader h)
+    | none => "bad-op"
+  | ["rspenc", a, b, c, d, e, f, g, hx] =>
+    match parseHdr [a, b, c, d, e, f, g], ofHex hx with
+    | some h, some data => showBytes (encodeIpmbMsgRsp h data)
+    | _, _ => "bad-op"
+  | ["rspframe", v, a, b, c, d, e, f, g, hx] =>
+    let tbl : Option (List (Fld × Expr)) :=
+      if v == "s" then some Gen.IpmbFilter.rspFromReq
+      else if v == "a" then some (fromReqTable .asShipped)
+      else if v == "i" then some (fromReqTable .intended) else none
+    match tbl, parseHdr [a, b, c, d, e, f, g], ofHex hx with
+    | some tbl, some h, some body => showBytes (responseFrame tbl h body)
+    | _, _, _ => "bad-op"
+  | ["mkreq", a, b, c, d, e, f, g, hx] =>
+    match parseHdr [a, b, c, d, e, f, g], ofHex hx with
+    | some h, some data => toHex (mkRequest h data)
+    | _, _ => "bad-op"
+  | ["parsersp", hx] =>
+    match ofHex hx with
+    | some fr =>
+      match parseRsp fr with
+      | some (h, data) => s!"some {showHdr h} {toHex data}"
+      | none => "none"
+    | none => "bad-op"
   | ["parse", hx] =>
     match ofHex hx with
     | some fr =>
